@@ -1,10 +1,59 @@
-(** Property C02 — DHP never frees an object a guard still protects (interim: the concurrent theorem is being
-    assembled in Proofs/DhpScan*.v; this file lists what is proved so far). *)
-From Coq Require Import ZArith List String.
-From LV Require Import Base.Conc Base.Events Model.DhpLang Model.Dhp Proofs.DhpHist Proofs.DhpSeqThm.
+(** Property C02 — DHP never frees an object a guard still protects.
+    "Under the Dynamic Hazard Pointer scheme, an object passed to retire() is never given to its disposer while a
+     guard that already protected it when the reclamation pass began still protects it.  This includes guards in
+     blocks added once a thread exhausts its initial guards, retired lists that grew past one block, and thread
+     records that were detached and reused."
+
+    Only statements here; proofs live in LV.Proofs.Dhp*.  The model is LV.Model.Dhp (cds::gc::dhp::smr,
+    thread_hp_storage with its extension list, retired_array, the two block allocators over
+    cds::intrusive::FreeList); vocabulary of the statement: LV.Proofs.DhpHist ([hist], [live], [guards_since],
+    [no_dispose_while_guarded]). *)
+From Coq Require Import ZArith List String Lia.
+From LV Require Import Base.Conc Base.Events Model.DhpLang Model.Dhp Proofs.DhpHist Proofs.DhpSeqThm Proofs.DhpProofsC02
+  Proofs.DhpProofsC03.
 Import ListNotations.
 Local Open Scope Z_scope.
 
-Example C02_model_runs :
-  snd (Dhp.run_case [4; 2; 4; 0; 50; 1; 1] [[[1]; [3;0]; [5;0;1]; [9;1]; [9;2]; [10]; [2]]] [] 2000) = true.
-Proof. vm_compute. reflexivity. Qed.
+(** For every initial guard count, every capacity of the guard / retired blocks, every number of threads, every
+    client program (attach, detach, Guard / ~Guard in any number — extension blocks —, assign, clear, protect,
+    publish, retire in any number — retired-block growth —, scan, re-attach) and EVERY schedule: whenever a
+    thread hands a pointer p to the disposer inside a scan (also the scans run by retire, detach and help_scan)
+    that began at event index s0, no hazard cell that belongs to an attached thread record since before s0 —
+    cell of the initial array or of any extension block linked into the record's guard list, reused records
+    and reused blocks included — has held p without interruption since before s0.
+    Hypothesis [flbad ... = false]: on this trace the two embedded free lists never handed out a block they did
+    not hold (that is property C21 for cds::intrusive::FreeList; the ghost event "_alloc" that would falsify it
+    is part of the trace). *)
+Theorem C02_dhp_no_dispose_while_guarded :
+  forall (fuel : nat) (c : Dhp.cfg) (ths : list (list Dhp.op)) conf,
+    Conc.reach (Dhp.init_cfg fuel c ths) conf ->
+    flbad (hist (Conc.trace conf)) = false ->
+    no_dispose_while_guarded c (Conc.trace conf).
+Proof. exact dhp_no_dispose_while_guarded_partial. Qed.
+Print Assumptions C02_dhp_no_dispose_while_guarded.
+
+(** the retired array of one record, sequentially: every retire / scan sequence, every hazard list, every block
+    capacity >= 4 (retired lists that grow past one block): each pointer freed at most once, nothing written
+    outside a block, and what the destructor frees at the end is exactly what is still pending *)
+Theorem C02_dhp_retired_array_sequential :
+  forall (c : Dhp.cfg) (os : list sop), (4 <= c_RB c)%nat -> c_old c = false -> NoDup (retired_of os) ->
+    let '(g, d) := seq_run c 0 os (seq_init c) in
+    NoDup d /\ incl d (retired_of os) /\ oob g = false /\ Permutation.Permutation (seq_final c 0 g ++ d) (retired_of os).
+Proof. intros c os H4 Ho Hn. apply dhp_seq_at_most_once; auto. lia. Qed.
+Print Assumptions C02_dhp_retired_array_sequential.
+
+(** non-vacuity of the concurrent theorem: two threads, extension blocks (capacity 2, five guards with four
+    initial cells), a guarded object survives the other thread's scan and is disposed by a later one; the free
+    lists behaved ([flbad] = false) and dispose events do occur *)
+Example C02_nonvacuous :
+  let r := Dhp.run_case [4; 2; 4; 0; 200; 1; 0]
+             [[[1]; [12;0;1;5]; [8;0;1]; [15;0;2]; [6;4]; [8;0;3]];
+              [[1]; [15;0;1]; [9;5]; [9;6]; [10]; [8;0;2]; [15;0;3]; [10]]] [] 5000 in
+  snd r = true /\ flbad (hist (fst r)) = false /\
+  map snd (filter (fun e => is_cli "dispose" (snd e)) (fst r)) = [EvCli "dispose" [6]; EvCli "dispose" [5]].
+Proof. vm_compute. repeat split; reflexivity. Qed.
+
+(** regression of non-vacuity: the sequential statement is false for the extend() of before commit 1cc4b4f *)
+Example C02_old_extend_refuted :
+  exists c os, c_old c = true /\ (4 <= c_RB c)%nat /\ NoDup (retired_of os) /\ ~ NoDup (snd (seq_run c 0 os (seq_init c))).
+Proof. exact dhp_old_extend_refuted. Qed.
